@@ -3,7 +3,8 @@
 (* Batch validation of executions of the real dulwich code against         *)
 (* WorkTreeStatus.                                                         *)
 (*                                                                         *)
-(* One ndjson line per execution:  [tid, paths, ev].  An event is what the *)
+(* One ndjson line per execution:  [tid, paths, ev] (paths: the universe of *)
+(* the batch, carried by the first line).  An event is what the             *)
 (* harness did and saw at one step on a real repository:                   *)
 (*   act, p, q, k, c     the action and its arguments (cell = [k, c])      *)
 (*   t                   target tree of Checkout / Switch (entries)        *)
@@ -11,7 +12,8 @@
 (*                       projected from the repository independently of    *)
 (*                       dulwich (git ls-tree / ls-files, os.walk);        *)
 (*                       entries are [p, k, c]                             *)
-(*   rep                 what porcelain.status returned (five path lists)  *)
+(*   hasrep, rep         what porcelain.status returned (five path lists;  *)
+(*                       hasrep is false when the call raised)             *)
 (*   hasnorm, norm       the default ("normal") presentation of untracked  *)
 (*   hasgit, git         `git status` run on the same directory            *)
 (*                                                                         *)
@@ -22,13 +24,17 @@
 (* not the action's effect the execution has left the model (drift, a      *)
 (* shape verdict), the observed triple is adopted and the property clauses *)
 (* keep being evaluated on what the code really did.  Property clauses are *)
-(* the invariants of WorkTreeStatus, evaluated on the real state.          *)
+(* the invariants of WorkTreeStatus, evaluated on the real state.  The     *)
+(* module is a monitor: it prints one STEP line per step that is not a     *)
+(* clean step of the specification and one DIFF line per path and field    *)
+(* that differs; every step of every trace is judged (a known defect early *)
+(* in a trace does not hide a different one later).                        *)
 (***************************************************************************)
 EXTENDS WorkTreeStatus, Json, IOUtils
 
 Traces == ndJsonDeserialize(IOEnv.TRACE_FILE)
 Rng(s) == {s[j] : j \in DOMAIN s}
-TracePaths == UNION {Rng(Traces[t].paths) : t \in DOMAIN Traces}
+TracePaths == Rng(Traces[1].paths)      \* the harness puts the path universe of the whole batch into the first line
 TraceActs == {"Checkout", "Switch", "Modify", "Chmod", "Delete", "Create", "Retype", "FileToDir", "DirToFile",
               "Stage", "StageAll", "Unstage", "RmCached", "Commit", "ResetMixed", "ResetHard"}
 
@@ -37,8 +43,8 @@ NoTrees == {}
 NoCells == {}
 NoContents == {}
 
-VARIABLES tid, l, obs, verdict, failAt, driftAt
-tvars == <<vars, tid, l, obs, verdict, failAt, driftAt>>
+VARIABLES tid, l, obs
+tvars == <<vars, tid, l, obs>>
 
 Ev == Traces[tid].ev
 ToMap(es) == [p \in Paths |-> IF \E j \in DOMAIN es : es[j].p = p
@@ -50,7 +56,7 @@ ToNorm(s) == {[p |-> s[j].p, dir |-> s[j].dir] : j \in DOMAIN s}
 
 TraceInit ==
     /\ tid \in DOMAIN Traces
-    /\ l = 1 /\ verdict = "ok" /\ failAt = 0 /\ driftAt = 0
+    /\ l = 1
     /\ obs = CleanReport
     /\ Init
 
@@ -84,55 +90,55 @@ Generic(e) ==
     /\ n' = n + 1
     /\ last' = [act |-> e.act, p |-> e.p, q |-> e.q, cell |-> Cell(e.k, e.c)]
 
-\* first property clause that fails in the state just reached
-Clause(e) ==
-    IF last'.act \in {"Checkout", "Switch"} /\ ~(RoundTrip' /\ head' = ToMap(e.t)) THEN "RoundTrip"
-    ELSE IF ~StageAllComplete' THEN "StageAllComplete"
-    ELSE IF obs' # rep' THEN "StatusExact"
-    ELSE IF e.hasnorm /\ NormalComparable(index', wd') /\ ToNorm(e.norm) # UntrackedNormal(index', wd') THEN "StatusExactNormal"
-    ELSE IF e.hasgit /\ ToRep(e.git) # rep' THEN "GitDisagrees"
-    ELSE "ok"
+\* the property clauses that fail in the state just reached (invariants of WorkTreeStatus
+\* evaluated on the real state, plus the comparison of the real status with the
+\* specification's)
+Failing(e) ==
+    (IF last'.act \in {"Checkout", "Switch"} /\ ~(RoundTrip' /\ head' = ToMap(e.t)) THEN {"RoundTrip"} ELSE {})
+    \cup (IF ~StageAllComplete' THEN {"StageAllComplete"} ELSE {})
+    \cup (IF e.hasrep /\ obs' # rep' THEN {"StatusExact"} ELSE {})
+    \cup (IF e.hasnorm /\ NormalComparable(index', wd') /\ ToNorm(e.norm) # UntrackedNormal(index', wd') THEN {"StatusExactNormal"} ELSE {})
+    \cup (IF e.hasgit /\ ToRep(e.git) # rep' THEN {"GitDisagrees"} ELSE {})
 
-\* what exactly differs (printed for the first failing step only; the harness builds the
-\* signature of the finding from it)
+\* what exactly differs (the harness builds the signature of a finding from these lines)
 Fields == {"add", "del", "mod", "unstaged", "untracked"}
-Explain(e, c) ==
-    /\ c \in {"StatusExact", "GitDisagrees"} =>
+Explain(e, cs) ==
+    /\ \A c \in cs \cap {"StatusExact", "GitDisagrees"} :
           LET got == IF c = "StatusExact" THEN obs' ELSE ToRep(e.git) IN
           \A f \in Fields :
               /\ \A p \in got[f] \ rep'[f] : PrintT(<<"DIFF", Traces[tid].tid, l, c, f, "+", p>>)
               /\ \A p \in rep'[f] \ got[f] : PrintT(<<"DIFF", Traces[tid].tid, l, c, f, "-", p>>)
-    /\ c = "StatusExactNormal" =>
+    /\ "StatusExactNormal" \in cs =>
           LET got == ToNorm(e.norm)  want == UntrackedNormal(index', wd') IN
-          /\ \A x \in got \ want : PrintT(<<"DIFF", Traces[tid].tid, l, c, IF x.dir THEN "normdir" ELSE "normfile", "+", x.p>>)
-          /\ \A x \in want \ got : PrintT(<<"DIFF", Traces[tid].tid, l, c, IF x.dir THEN "normdir" ELSE "normfile", "-", x.p>>)
-    /\ c = "StageAllComplete" =>
-          \A p \in {q \in Paths : index'[q] # wd'[q]} : PrintT(<<"DIFF", Traces[tid].tid, l, c, "index", "#", p>>)
-    /\ c = "RoundTrip" =>
+          /\ \A x \in got \ want : PrintT(<<"DIFF", Traces[tid].tid, l, "StatusExactNormal", IF x.dir THEN "normdir" ELSE "normfile", "+", x.p>>)
+          /\ \A x \in want \ got : PrintT(<<"DIFF", Traces[tid].tid, l, "StatusExactNormal", IF x.dir THEN "normdir" ELSE "normfile", "-", x.p>>)
+    /\ "StageAllComplete" \in cs =>
+          \A p \in {q \in Paths : index'[q] # wd'[q]} : PrintT(<<"DIFF", Traces[tid].tid, l, "StageAllComplete", "index", "#", p>>)
+    /\ "RoundTrip" \in cs =>
           LET t == ToMap(e.t) IN
-          /\ \A p \in {q \in Paths : head'[q] # t[q]} : PrintT(<<"DIFF", Traces[tid].tid, l, c, "head", "#", p>>)
-          /\ \A p \in {q \in Paths : index'[q] # t[q]} : PrintT(<<"DIFF", Traces[tid].tid, l, c, "index", "#", p>>)
-          /\ \A p \in {q \in Paths : (t[q] # NoCell \/ e.act = "Checkout") /\ wd'[q] # t[q]} : PrintT(<<"DIFF", Traces[tid].tid, l, c, "wd", "#", p>>)
+          /\ \A p \in {q \in Paths : head'[q] # t[q]} : PrintT(<<"DIFF", Traces[tid].tid, l, "RoundTrip", "head", "#", p>>)
+          /\ \A p \in {q \in Paths : index'[q] # t[q]} : PrintT(<<"DIFF", Traces[tid].tid, l, "RoundTrip", "index", "#", p>>)
+          /\ \A p \in {q \in Paths : (t[q] # NoCell \/ e.act = "Checkout") /\ wd'[q] # t[q]} : PrintT(<<"DIFF", Traces[tid].tid, l, "RoundTrip", "wd", "#", p>>)
 
+\* one line per step that is not (a step of the specification and free of failing clauses)
 Consume ==
     /\ l <= Len(Ev)
-    /\ LET e == Ev[l] IN
-         /\ IF ENABLED Strict(e)
-            THEN Strict(e) /\ driftAt' = driftAt
-            ELSE Generic(e) /\ driftAt' = IF driftAt = 0 THEN l ELSE driftAt
-         /\ obs' = ToRep(e.rep)
-         /\ LET c == Clause(e) IN
-              /\ verdict' = IF verdict = "ok" THEN c ELSE verdict
-              /\ failAt' = IF verdict = "ok" /\ c # "ok" THEN l ELSE failAt
-              /\ (verdict = "ok" /\ c # "ok") => Explain(e, c)
+    /\ LET e == Ev[l]
+           strict == ENABLED Strict(e)
+       IN
+         /\ IF strict THEN Strict(e) ELSE Generic(e)
+         /\ obs' = IF e.hasrep THEN ToRep(e.rep) ELSE CleanReport
+         /\ LET cs == Failing(e) IN
+              /\ (~strict \/ cs # {}) => PrintT(<<"STEP", Traces[tid].tid, l, strict, cs>>)
+              /\ Explain(e, cs)
     /\ l' = l + 1
     /\ UNCHANGED tid
 
 Finish ==
     /\ l = Len(Ev) + 1
-    /\ PrintT(<<"VERDICT", Traces[tid].tid, verdict, failAt, driftAt>>)
+    /\ PrintT(<<"DONE", Traces[tid].tid, Len(Ev)>>)
     /\ l' = l + 1
-    /\ UNCHANGED <<vars, tid, obs, verdict, failAt, driftAt>>
+    /\ UNCHANGED <<vars, tid, obs>>
 
 TraceNext == Consume \/ Finish
 TraceSpec == TraceInit /\ [][TraceNext]_tvars
